@@ -1,4 +1,5 @@
 import BridgeVerif.Model.Pbn
+import BridgeVerif.Spec.Deal
 /-!
 # Admissible layouts of a PBN import file (C17) and what a written export file must read back as (C18)
 
@@ -86,6 +87,12 @@ def GameL.firstTag? (g : GameL) (name : Str) : Option Str :=
     | .tag n v _ _ _ => if n = name then some v else none
     | .row _ => none
 
+/-- the tag pairs of a game, in file order -/
+def GameL.tagList (g : GameL) : List (Str × Str) :=
+  g.items.filterMap fun i => match i with
+    | .tag n v _ _ _ => some (n, v)
+    | .row _ => none
+
 /-- the spellings `Vul.str_to_vul` accepts for a vulnerability -/
 def vulSpellings : Vul → List Str
   | .none => ["None".toList, "Love".toList, "-".toList, "NONE".toList]
@@ -100,5 +107,34 @@ def GameL.Describes (g : GameL) (b : SettingEntry) : Prop :=
   g.firstTag? "Dealer".toList = some b.dealer.name ∧
   (∃ sp ∈ vulSpellings b.vul, g.firstTag? "Vulnerable".toList = some sp) ∧
   g.firstTag? "Board".toList = some b.boardId
+
+/-- the same board: identifier, dealer, vulnerability, the four hands as sets; a PBN board has no double-dummy table -/
+def SameBoard (r b : SettingEntry) : Prop :=
+  r.boardId = b.boardId ∧ r.dealer = b.dealer ∧ r.vul = b.vul ∧ (∀ p, (r.deal p).Perm (b.deal p)) ∧ r.dda = none
+
+/-! ### export files: what `PbnWriter` writes, as a layout -/
+/-- the game `write_board_result` writes for the tag pairs `tags` : one line per pair, then one empty line -/
+def resultGame (tags : List (Str × Str)) : GameL :=
+  { items := tags.map fun tc => .tag tc.1 tc.2 false false [], seps := [[]] }
+
+def exportFile (tagss : List (List (Str × Str))) : FileL :=
+  { header := [], leading := [], games := tagss.map resultGame, eol := ['\n'] }
+
+/-- the fifteen mandatory tag names, in order -/
+def mandatoryTags : List Str :=
+  ["Event", "Site", "Date", "Board", "West", "North", "East", "South", "Dealer", "Vulnerable", "Deal", "Scoring",
+   "Declarer", "Contract", "Result"].map String.toList
+
+/-- what C18 quantifies over: a positive board number, hands complete or unknown, a result exactly when the board
+was played, a declarer when it was played, free-text values without quote / line end / comment opener, and every
+tag pair fitting on one line of the format (255 characters including the line end) -/
+structure PbnResult.WF (r : PbnResult) : Prop where
+  board : 0 < r.boardNum
+  deal : PartialDeal r.deal
+  tricks : r.contract.isPassedOut = true ↔ r.tricks = none
+  declarer : r.contract.isPassedOut = false → r.contract.declarer.isSome = true
+  text : plainText r.event = true ∧ plainText r.site = true ∧ plainText r.west = true ∧ plainText r.north = true ∧
+         plainText r.east = true ∧ plainText r.south = true
+  fits : ∀ tags, resultTags? r = some tags → ∀ tc ∈ tags, (tagLine tc.1 tc.2).length + 1 ≤ MAX_LINE_CHARS
 
 end Bridge
